@@ -13,39 +13,41 @@ from . import arch as A
 
 
 class StepPolicy(Policy):
-    """One symbolic choice: nothing happens / stop before step k / fail step k with kind."""
+    """At every storage step after arming the solver may choose: nothing / the process stops before this step /
+    stops inside this write leaving an empty file / this step fails with kind e.  At most one event per run."""
 
     def __init__(self, mode, kinds=('NotFound', 'Other', 'PermissionDenied', 'AlreadyExists'), only_reads=False, start=0):
-        self.mode = mode          # 'none' | 'crash' | 'fault'
+        self.mode = mode          # 'none' | 'crash' | 'empty_crash' | 'fault'
         self.kinds = kinds
         self.only_reads = only_reads
         self.fired = None
-        self.start = start
         self.armed = False
 
     def on_step(self, ex, store, idx, actor, verb, path, mutating):
         if self.mode == 'none' or self.fired is not None or not self.armed:
             return None
         if self.mode == 'crash':
-            if ex.branch(ex.fresh_bool('crash_at_%d' % idx), 'crash here?'):
+            if not ex.branch(z3.Not(ex.fresh_bool('crash_at_%d' % idx)), 'crash here?'):
                 self.fired = (idx, verb, path, 'stop')
                 return 'stop'
             return None
         if self.mode == 'empty_crash':
-            if verb == 'write' and ex.branch(ex.fresh_bool('emptycrash_at_%d' % idx), 'crash inside write?'):
+            if verb == 'write' and not ex.branch(z3.Not(ex.fresh_bool('emptycrash_at_%d' % idx)), 'crash inside write?'):
                 self.fired = (idx, verb, path, 'empty_stop')
                 return 'empty_stop'
             return None
         if self.mode == 'fault':
             if self.only_reads and mutating:
                 return None
-            if ex.branch(ex.fresh_bool('fault_at_%d' % idx), 'fault here?'):
-                k = ex.choose([True] * 0 + [ex.fresh_bool('k%d_%d' % (idx, j)) if j < len(self.kinds) - 1 else True
-                               for j in range(len(self.kinds))][:0] or [z3.BoolVal(True)], 'kind') if False else None
+            if not ex.branch(z3.Not(ex.fresh_bool('fault_at_%d' % idx)), 'fault here?'):
                 ki = ex.concretize(ex.fresh_int('kind', 0, len(self.kinds) - 1), 0, len(self.kinds) - 1, 'fault kind')
                 self.fired = (idx, verb, path, self.kinds[ki])
                 return ('fail', self.kinds[ki])
             return None
+        return None
+
+    def finish(self):
+        """Call when the operation under test has returned (the event-free run is covered by mode 'none')."""
         return None
 
 
@@ -140,6 +142,7 @@ def make(prog, spec, delete, dry_run, break_lock, mode):
                                                     A.monitor_arc(ex)])
             except Crash:
                 crashed = True
+            pol.finish()
             # a GarbageCollectionLock dropped on an error path spawns the lock removal; it has run by now (spawn_now)
             return st, before, refs, r, crashed, pol
 
